@@ -82,10 +82,12 @@ include!("gen/h_c01_cases.rs");
 // ---------------------------------------------------------------------------------- generators + glue
 fn same_move(a: &Move, b: &Move) -> bool { a.from == b.from && a.to == b.to && a.piece_type == b.piece_type && a.move_type == b.move_type }
 /// an arbitrary but fixed predicate on moves (the SALT is symbolic): stands for "the filter accepts m"
-pub static mut SALT: u32 = 0;
+pub struct MgState { pub magic: u64, pub salt: u32 }
+/// (struct with a sentinel field: see h_eval.rs)
+pub static mut MGS: MgState = MgState { magic: 0x5EED_5A17_0BAD_F00D, salt: 0 };
 pub fn pred(m: &Move) -> bool {
     let x = (m.from as u32) * 64 + m.to as u32 + 4096 * (pidx(m.piece_type) as u32) + 32768 * (match m.move_type { MoveType::Quiet => 0, MoveType::Capture => 1, MoveType::EnPassant => 2, MoveType::Castle => 3, MoveType::Promotion => 4 });
-    ((x ^ unsafe { SALT }).wrapping_mul(0x9E37_79B1) >> 13) & 1 == 1
+    ((x ^ unsafe { MGS.salt }).wrapping_mul(0x9E37_79B1) >> 13) & 1 == 1
 }
 /// generate_moves end to end with the legality filter replaced by an ARBITRARY predicate (kani::stub of
 /// is_legal; the real filter is decided separately, case by case, by c01_filter_*): the list is exactly
@@ -97,7 +99,7 @@ pub fn generators_case(extra: usize) {
     let b = small_board(extra);
     let p = from_board(&b);
     sym::assume(valid(&p));
-    unsafe { SALT = sym::u32(); }
+    unsafe { MGS.salt = sym::u32(); }
     let mg = mk_movegen();
     let out = mg.generate_moves(&b);
     let n = out.len();
@@ -159,7 +161,7 @@ pub fn qglue_case(extra: usize) {
     let b = small_board(extra);
     let p = from_board(&b);
     sym::assume(valid(&p));
-    unsafe { SALT = sym::u32(); }
+    unsafe { MGS.salt = sym::u32(); }
     let mg = mk_movegen();
     let all = mg.generate_moves(&b);
     let q = mg.generate_quiescence_moves(&b);
